@@ -34,14 +34,20 @@ Proof.
 Qed.
 
 (* how one step changes the shutdown body and the stop events *)
-Inductive sd_effect (s s' : state) : Prop :=
-| eff_call i : sd s = SdNext (S i) -> sd s' = SdIn i -> hist s' = EStopCall i :: hist s -> sd_effect s s'
-| eff_ret i : sd s = SdIn i -> sd s' = sd_next i -> hist s' = EStopRet i :: hist s -> sd_effect s s'
+Inductive sd_effect (c : config) (s s' : state) : Prop :=
+| eff_call i : sd s = SdNext (S i) -> sd s' = SdIn i -> hist s' = EStopCall i :: hist s -> sd_effect c s s'
+| eff_ret i : sd s = SdIn i -> sd s' = sd_next i -> hist s' = EStopRet i :: hist s -> sd_effect c s s'
 | eff_other :
     stops s' = stops s ->
-    (sd s' = sd s \/ (sd s = SdNot /\ sd s' = sd_next (launched s)) \/
+    (sd s' = sd s \/ (sd s = SdNot /\ sd s' = sd_next (stop_count c s)) \/
      (sd s = SdCancel /\ sd s' = SdWait) \/ (sd s = SdWait /\ sd s' = SdDone)) ->
-    sd_effect s s'.
+    sd_effect c s s'.
+
+Lemma stop_count_le c s : length (rn s) = nrun c -> stop_count c s <= nrun c.
+Proof.
+  intros H. unfold stop_count. destruct (run_entered (aux s)); [|lia].
+  pose proof (launched_le s). lia.
+Qed.
 
 Ltac other_tac :=
   apply eff_other;
@@ -50,7 +56,7 @@ Ltac other_tac :=
   | cbn; auto ].
 
 Lemma step_sd_effect c s l s' :
-  step c s l = Some s' -> length (rn s') = length (rn s) /\ sd_effect s s'.
+  step c s l = Some s' -> length (rn s') = length (rn s) /\ sd_effect c s s'.
 Proof.
   intros H. unfold step in H.
   destruct l; cbn [step0] in H; unfold start_shutdown, store_state in H;
@@ -108,9 +114,9 @@ Proof.
   - rewrite Est. destruct Esd as [E | [[E E'] | [[E E'] | [E E']]]].
     + now rewrite E.
     + rewrite E in Hsd. rewrite E', Hsd.
-      pose proof (launched_le s) as Hle. rewrite Hlen in Hle.
-      pose proof (sd_next_inv c (launched s) (launched s) [] Hle (sf_nil _)) as Hn.
-      destruct (sd_next (launched s)); try contradiction; exact Hn.
+      pose proof (stop_count_le c s Hlen) as Hle.
+      pose proof (sd_next_inv c (stop_count c s) (stop_count c s) [] Hle (sf_nil _)) as Hn.
+      destruct (sd_next (stop_count c s)); try contradiction; exact Hn.
     + rewrite E in Hsd. now rewrite E'.
     + rewrite E in Hsd. now rewrite E'.
 Qed.
